@@ -63,7 +63,7 @@ def h_realloc(ctx, layout, segsites, through="infer+rescale", nan_first=False):
         def prop_mut(order, post, phase, *a):
             if a[-1]:
                 for m in order:
-                    if nan_first and int(m) == 0:
+                    if nan_first is not False and int(m) == (0 if nan_first is True else int(nan_first)):
                         # the projection was rejected numerically: phase undefined
                         phase[m] = math.nan
                         phases[int(m)] = None
@@ -160,6 +160,9 @@ def cases(tier):
                            dict(layout=lay, segsites=seg)))
             cs.append(Case(f"realloc:{lay}:seg{int(seg)}:nan", h_realloc,
                            dict(layout=lay, segsites=seg, nan_first=True)))
+            if tier == "thorough" and len(LAYOUTS[lay]) >= 2:   # the undefined phase elsewhere
+                cs.append(Case(f"realloc:{lay}:seg{int(seg)}:nan1", h_realloc,
+                               dict(layout=lay, segsites=seg, nan_first=1)))
     return cs
 
 
@@ -184,7 +187,7 @@ def run(tier, seed, t0):
                 "match_segregating_sites": "both"},
         stubs=["iterate / propagate_mutations replaced on the instance (phases arbitrary in [0,1])",
                "rescale cut after reallocate_unphased (mutational_timescale raises a sentinel)"],
-        assumptions=["at most the first singleton has an undefined (NaN) phase"],
+        assumptions=["at most one singleton (the first; thorough: also the second) has an undefined (NaN) phase"],
         out_of_scope=["the rest of rescale (C25)"],
         validated=npx.validate(),
         expect_tags=["flipped", "kept"],
